@@ -12,11 +12,10 @@ package message
 //@ let nsat = cnthi(hdrSatMask(bitStream), 64, 64)
 //@ let nsig = cnthi(hdrSigMask(bitStream), 32, 32)
 //@ let NC = cnthi(bits(bitStream, 193, hdrX(bitStream)), hdrX(bitStream), hdrX(bitStream))
-//@ let WF = isMSM7(bits(bitStream, 24, 12)) && hdrX(bitStream) <= 64 && 8*len(bitStream) >= 217 + hdrX(bitStream) + 36*cnthi(hdrSatMask(bitStream), 64, 64) + 80*cnthi(bits(bitStream, 193, hdrX(bitStream)), hdrX(bitStream), hdrX(bitStream))
-//@ ensures[C04] WF && (bits(bitStream, 78, 1) == 0 || NC >= 1) ==> r1 == nil
+//@ ensures[C04] WFMSM7(bitStream) ==> r1 == nil
 //@ ensures[C04] r1 == nil ==> HdrFields(r0.Header, bitStream) && HdrLists(r0.Header) && HdrCells(r0.Header)
 //@ ensures[C04] r1 == nil ==> forall(k, 0, len(r0.Satellites), r0.Satellites[k].ID == r0.Header.Satellites[k] && r0.Satellites[k].RangeWholeMillis == bits(bitStream, 193 + X + 8*k, 8) && r0.Satellites[k].ExtendedInfo == bits(bitStream, 193 + X + 8*nsat + 4*k, 4) && r0.Satellites[k].RangeFractionalMillis == bits(bitStream, 193 + X + 12*nsat + 10*k, 10) && r0.Satellites[k].PhaseRangeRate == sbits(bitStream, 193 + X + 22*nsat + 14*k, 14) && r0.Satellites[k].LogLevel == logLevel)
-//@ ensures[C04] r1 == nil && WF ==> forall(k, 0, len(r0.Signals), Row7OK(contents(r0.Signals[k]), offof(r0.Signals[k]), len(r0.Signals[k]), contents(r0.Header.Signals), offof(r0.Header.Signals), r0.Header.CellMask, X, nsig, k, nsig, contents(bitStream), 8*offof(bitStream) + 193 + X + 36*nsat, NC, addr(r0.Satellites, k), logLevel))
+//@ ensures[C04] r1 == nil && WFMSM7(bitStream) ==> forall(k, 0, len(r0.Signals), Row7OK(contents(r0.Signals[k]), offof(r0.Signals[k]), len(r0.Signals[k]), contents(r0.Header.Signals), offof(r0.Header.Signals), r0.Header.CellMask, X, nsig, k, nsig, contents(bitStream), 8*offof(bitStream) + 193 + X + 36*nsat, NC, addr(r0.Satellites, k), logLevel))
 //@ ensures r1 == nil ==> r0 != nil && fresh(r0) && r0.Header != nil && HeaderWF(r0.Header) && len(r0.Satellites) == len(r0.Header.Satellites) && len(r0.Signals) == len(r0.Header.Satellites)
 //@ ensures r1 == nil ==> forall(k, 0, len(r0.Signals), forall(l, 0, len(r0.Signals[k]), r0.Signals[k][l].Satellite != nil))
 //@ ensures r1 != nil ==> r0 == nil
